@@ -138,6 +138,29 @@ def check(tier):
     for ln in range(1, 4):
         for tup in itertools.product(T2, repeat=ln):
             inputs.append({"family": "tok", "kind": "src", "text": "from t | " + " ".join(tup)})
+    # (b3) escape sequences: every string of up to four characters over the escape alphabet after a backslash, in a plain
+    # string, an f-string and an s-string
+    ESC = ["u", "x", "{", "}", "0", "f", "z", "n", "\\", "1"]
+    for ln in range(0, 5 if tier == "quick" else 6):
+        for tup in itertools.product(ESC, repeat=ln):
+            body = "\\" + "".join(tup)
+            inputs.append({"family": "escape", "kind": "src", "text": f"from t | select {{v = \"{body}\"}}"})
+            if ln <= 3:
+                inputs.append({"family": "escape", "kind": "src", "text": f"from t | select {{v = f\"a{body}\"}}"})
+                inputs.append({"family": "escape", "kind": "src", "text": f"from t | select {{v = s\"a{body}\"}}"})
+                inputs.append({"family": "escape", "kind": "src", "text": f"from t | select {{v = '{body}'}}"})
+    # (b4) set operations and whole-row de-duplication around projections: relation x operation x projection x distinct x follower
+    rels = ["from t", "from t | select {k, a}", "from t | take 5"]
+    setops = ["", "append u", "append (from u | select {k, a})", "remove (from u | select {k, a})", "intersect (from u | select {k, a})", "join u (==k)"]
+    projs = ["", "select {k, a}", "select {a}", "select {a, k}", "derive {z = a + 1}", "sort a", "filter a > 1"]
+    dists = ["group {k, a} (take 1)", "group {a} (take 1)", "group this (take 1)", "group {k, a} (take 2)"]
+    posts = ["", "take 3", "sort k", "aggregate {n = count this}"]
+    for r_ in rels:
+        for so in setops:
+            for pj in projs:
+                for ds in dists:
+                    for po in posts:
+                        inputs.append({"family": "distinct", "kind": "src", "text": " | ".join(x for x in (r_, so, pj, ds, po) if x)})
     # (c) programs of the L1 machine incl. every scope-breaking edit, and random programs outside the safe profile
     m = model([from_("t")], l1props.alph_c10(), 3 if tier == "quick" else 4)
     progs, info = l1.mc_generate("C12-mc", m, dbset, workers=8)
